@@ -58,6 +58,8 @@ def gen_c10(rng, idx, tier, faults):
         cv = None
         params["shuffle"] = rng.random() < 0.6
         params["random_state"] = rng.choice([None, None, rng.randrange(1000)]) if params["shuffle"] else None
+        if params["random_state"] is not None and rng.random() < 0.3:
+            params["random_state"] = {"$npint": params["random_state"], "dtype": rng.choice(["int64", "int32"])}
     elif r < 0.7:
         perm = list(range(n))
         rng.shuffle(perm)
@@ -244,6 +246,9 @@ class RidgeWorld:
         alphas = list(p["alphas"])
         kw = dict(p)
         kw["cv"] = self.make_cv(cvspec, n)
+        for k_, v_ in list(kw.items()):
+            if isinstance(v_, dict) and "$npint" in v_:
+                kw[k_] = getattr(np, v_.get("dtype", "int64"))(v_["$npint"])
         if not hasattr(self, "ests"):
             self.ests = {}
         est = self.ests.get(new["obj"])
